@@ -6,6 +6,7 @@ import BW.Proofs.QueryPost
 import BW.Proofs.Determinism
 import BW.Proofs.HooksOrder
 import BW.Proofs.HooksHead
+import BW.Generated.ParFacts
 
 namespace BW.Props.C12
 open BW.Model BW.Proofs.Query BW.Proofs.QueryPost
@@ -86,6 +87,32 @@ theorem limit_means_its_token (h : BW.Model.Hooks.Head) (n : Int) :
       if n < 0 then none else some { h with limit := some n } :=
   BW.Proofs.HooksHead.limit_denote h n
 
+/-! ### LIMIT comes last -/
+
+/-- Regenerated obligation (`parfacts`, go/ast): `queryPlan.Execute` runs its stages in the order the model's
+    `postStages` composes them — graph pattern, projection / grouping, ORDER BY, HAVING, LIMIT. -/
+theorem stages_as_modelled :
+    BW.Generated.executeStages = ["processGraphPattern", "projectAndGroupBy", "orderBy", "having", "limit"] := by decide
+
+/-- LIMIT n returns the first min(n, N) of the rows HAVING keeps of the sorted table — not of the sorted table: with
+    the stages in that order LIMIT cannot change which rows qualify. -/
+theorem limit_cuts_what_having_keeps (S : Strs) (cfg : List (Bytes × Bool)) (e : HExpr) (n : Int) (hn : 0 ≤ n) (rows out : List Row)
+    (f : Row → Bool) (hf : ∀ r ∈ sortRows S cfg rows, evalH S r e = .ok (f r))
+    (h : postStages S cfg (some e) (some n) rows = .ok out) :
+    out = ((sortRows S cfg rows).filter f).take (min n.toNat ((sortRows S cfg rows).filter f).length) := by
+  unfold postStages at h
+  simp only [havingFilter_spec S e _ f hf, Except.map, Except.ok.injEq] at h
+  rw [← h, limitRows_prefix n _ hn]
+
+/-- Non-vacuity, and why the order matters: of the rows 1, 5, 2, 6 the two first that exceed 3 are 5 and 6; cutting
+    first would leave 5 alone. -/
+example :
+    let row := fun (i : Int) => ([([63, 111], Cell.lit (.int i))] : Row)
+    let S : Strs := ⟨fun _ => [], fun _ => [], fun _ => []⟩
+    postStages S [] (some (.cmpLit .gt [63, 111] (some (.int 3)))) (some 2) [row 1, row 5, row 2, row 6] = .ok [row 5, row 6] ∧
+    havingFilter S (.cmpLit .gt [63, 111] (some (.int 3))) (limitRows 2 [row 1, row 5, row 2, row 6]) = .ok [row 5] := by
+  refine ⟨by rfl, by rfl⟩
+
 end BW.Props.C12
 
 #print axioms BW.Props.C12.order_by_perm
@@ -101,3 +128,5 @@ end BW.Props.C12
 #print axioms BW.Props.C12.order_by_sorted
 #print axioms BW.Props.C12.repeated_keys_change_nothing
 #print axioms BW.Props.C12.limit_means_its_token
+#print axioms BW.Props.C12.stages_as_modelled
+#print axioms BW.Props.C12.limit_cuts_what_having_keeps
